@@ -83,10 +83,11 @@ const (
 	EndPanic
 	EndViolation
 	EndDiverged
+	EndTimeCap
 )
 
 func (e End) String() string {
-	return [...]string{"done", "quiescent", "stepcap", "deadlock", "panic", "violation", "diverged"}[e]
+	return [...]string{"done", "quiescent", "stepcap", "deadlock", "panic", "violation", "diverged", "timecap"}[e]
 }
 
 type Config struct {
@@ -122,6 +123,8 @@ type World struct {
 	Trace     []Decision
 	Panics    []string
 	Deadlock  string
+	// DeadlockSites: the wait sites of the tasks forming the cycle (sorted)
+	DeadlockSites []string
 	Diverged  string
 	Violation string
 	Start     time.Time
@@ -417,9 +420,12 @@ func (w *World) findCycle() string { // w.mu held
 		if cyc := dfs(start); cyc != nil {
 			// canonical order: start from the smallest acquisition site
 			var parts []string
+			w.DeadlockSites = nil
 			for _, t := range cyc {
 				parts = append(parts, fmt.Sprintf("%s waits at %s for %s", t.Name, t.Site, t.waitDesc))
+				w.DeadlockSites = append(w.DeadlockSites, t.Site)
 			}
+			sort.Strings(w.DeadlockSites)
 			return fmt.Sprintf("%d-cycle: %v", len(cyc), parts)
 		}
 	}
@@ -546,6 +552,11 @@ func (w *World) Run(done func() bool) End {
 			case <-w.notify:
 			case <-w.far.C:
 				w.farFired = true
+				if len(opts) > 1 {
+					// time was let pass by choice (stall) while something was still
+					// enabled: the virtual-time cap, not quiescence
+					return EndTimeCap
+				}
 				return EndQuiescent
 			}
 		default:
